@@ -1,6 +1,7 @@
 import CobraModel.Lemmas.Formulations
 import Mathlib.Tactic.NormNum
 import CobraModel.Lemmas.AuxProb
+import CobraModel.Lemmas.Fastcc
 /-!
 # C19 — blocked-reaction and consistency analyses agree with the true flux ranges
 
@@ -94,5 +95,38 @@ theorem lp7_problem_optimum_ge (n : Net) (sub : List Nat) (thr : Rat) (hthr : 0 
   lp7_optimum_ge n sub thr hthr x h v hv
 
 example : AuxM.demoNet.Feasible AuxM.demoV := (AuxM.demoNet_feasible _).2 (by simp only [AuxM.demoV]; norm_num)
+
+/-! ### the main loop of `fastcc` (`FastccM.fastcc`, Model/Fastcc.lean)
+
+The LP solves are external; their answers (the reactions with `|flux| > zero_cutoff`) come in as a list. The record of solves the model
+produces is compared with the solves the real `fastcc` makes (harness/c19.py, `loop_stage`). -/
+
+/-- **`fastcc` keeps only reactions that are not blocked**: whatever the solver answers, as long as every answer is the support of some
+feasible flux vector -/
+theorem fastcc_keeps_only_unblocked (p : LP) (all irr : List Nat) (answers : List (List Nat))
+    (hans : ∀ a ∈ answers, ∃ x, p.feasible x = true ∧ ∀ r ∈ a, x.getD r 0 ≠ 0) :
+    ∀ r ∈ (FastccM.fastcc all irr answers).kept, ¬ Blocked p r := by
+  intro r hr
+  obtain ⟨a, ha, hra⟩ := FastccM.fastcc_kept all irr answers r hr
+  obtain ⟨x, hx, hsup⟩ := hans a ha
+  exact carries_flux_not_blocked p r x hx (hsup r hra)
+
+/-- **a reaction is dropped only after a solve over all the remaining reactions, it among them, found none of them**: the loop never
+stops while the last `_find_sparse_mode` made progress, and never leaves a reaction out of the set it hands to it -/
+theorem fastcc_dropped_reaction_was_tested (all irr : List Nat) (answers : List (List Nat)) (r : Nat)
+    (hc : (FastccM.fastcc all irr answers).complete = true) (hr : r ∈ all) (hk : r ∉ (FastccM.fastcc all irr answers).kept) :
+    ∃ c ∈ (FastccM.fastcc all irr answers).calls, c.flipped = false ∧ r ∈ c.j ∧ ∀ j ∈ c.j, j ∉ c.ans :=
+  FastccM.fastcc_dropped_tested all irr answers r hc hr hk
+
+/-- at most one solve per reaction plus two -/
+theorem fastcc_solves_bounded (all irr : List Nat) (answers : List (List Nat)) :
+    (FastccM.fastcc all irr answers).calls.length ≤ all.length + 2 :=
+  FastccM.fastcc_calls_le all irr answers
+
+-- a run: irreversible 0, 1; the first solve finds 0, the second (over 1, 2, 3) finds 2, the third (over 1, 3) nothing; flipped solve finds 3
+example : (FastccM.fastcc [0, 1, 2, 3] [0, 1] [[0], [2], [], [3]]).kept = [0, 2, 3] := by decide
+example : (FastccM.fastcc [0, 1, 2, 3] [0, 1] [[0], [2], [], [3]]).complete = true := by decide
+example : (FastccM.fastcc [0, 1, 2, 3] [0, 1] [[0], [2], [], [3]]).calls =
+    [⟨[0, 1], false, [0]⟩, ⟨[1, 2, 3], false, [2]⟩, ⟨[1, 3], false, []⟩, ⟨[3], true, [3]⟩] := by decide
 
 end C19
